@@ -241,6 +241,28 @@ let replay_bulk id line =
       | _ -> s ^ "!") obs in
   Printf.printf "OUT BULK %s %s\n" id (String.concat ";" out)
 
+
+(* ---- priority resolution (Model/Priority.v)
+   IN PRIO <id> <parent: numeric thread_priority | x> <requested: numeric> <route: 0 create_work | 1 create_thread>
+     -> OUT PRIO <id> <numeric stored priority of the child>
+   IN PQ <id> W=<w> H=<h> prio=<0|1> parent=<n|x> req=<n> hint=<h>
+     -> OUT PQ <id> <N:w | H:i | L>   (queue the child is pushed on; elasticity off)
+   priorities travel as the numeric values of the real enum; the constructor is looked up through the
+   regenerated rp_ord (value + 1) *)
+let rp_of_int v = List.find (fun p -> int_of_n (rp_ord p) = v + 1) rp_all
+let int_of_rp p = int_of_n (rp_ord p) - 1
+let parent_of s = if s = "x" then None else Some (rp_of_int (int_of_string s))
+let replay_prio id parent req route =
+  let r = (if route = "1" then resolve_priority_thread else resolve_priority) (rp_of_int (int_of_string req)) (parent_of parent) in
+  Printf.printf "OUT PRIO %s %d\n" id (int_of_rp (stored_rprio r))
+let replay_pq id line =
+  let fi k = int_of_string (field line k) in
+  let c = { pW = nat_of_int (fi "W"); pH = nat_of_int (fi "H"); pPrio = field line "prio" = "1"; pSteal = false;
+            pElastic = false; pAvail = (fun _ -> true) } in
+  let q = child_queue c O (rp_of_int (fi "req")) (parent_of (field line "parent")) (HThread (z_of_int (fi "hint"))) O in
+  Printf.printf "OUT PQ %s %s\n" id
+    (match q with QN (_, w) -> Printf.sprintf "N:%d" (int_of_nat w) | QH (_, i) -> Printf.sprintf "H:%d" (int_of_nat i) | QL _ -> "L")
+
 let () =
   try
     while true do
@@ -248,6 +270,9 @@ let () =
       match String.split_on_char ' ' line with
       | "IN" :: "PL" :: id :: _ -> (try replay_pl id line with e -> Printf.printf "OUT PL %s driver-error:%s\n" id (Printexc.to_string e))
       | "IN" :: "E6" :: id :: _ -> replay_e6 id line
+      | "IN" :: "PRIO" :: id :: parent :: req :: route :: _ ->
+        (try replay_prio id parent req route with e -> Printf.printf "OUT PRIO %s driver-error:%s\n" id (Printexc.to_string e))
+      | "IN" :: "PQ" :: id :: _ -> (try replay_pq id line with e -> Printf.printf "OUT PQ %s driver-error:%s\n" id (Printexc.to_string e))
       | "IN" :: "BULK" :: id :: _ -> (try replay_bulk id line with e -> Printf.printf "OUT BULK %s driver-error:%s\n" id (Printexc.to_string e))
       | _ -> ()
     done
